@@ -11,8 +11,8 @@ given to the owning check's quick tier (VERIF_REPO=<worktree>). Results go to
 import json, os, subprocess, sys, shutil, time, concurrent.futures as cf
 
 REPO = "/repo"
-VERIF = "/verif"
-SCRATCH = "/tmp/verif-mutants"
+VERIF = os.path.dirname(os.path.dirname(os.path.abspath(__file__)))
+SCRATCH = "/tmp/verif-mutants-%d" % os.getpid()
 
 D = "internal/dockerlog/dockerlog.go"
 DL = "internal/dockerlog/daemonlog.go"
